@@ -85,6 +85,13 @@ RARE = [
     # #pragma / #line in odd places
     ("directives-inside-struct-and-after-if", 'struct S {\n#pragma pack\n int a; }; void f(void){ if (1)\n#line 5 "z.h"\n ; }'),
     ("pragma-inside-initializer(fails)", "int a[] = {\n#pragma inside\n1 };"),
+    # a #pragma (with and without text) where the grammar allows none: the
+    # parse is abandoned right after the PPPRAGMA token
+    ("pragma-with-text-after-equals(fails)", "int x =\n#pragma pack(1)\n5;"),
+    ("pragma-with-text-between-specifier-and-declarator(fails)", "int\n#pragma p q\nx;"),
+    ("pragma-with-text-in-enumerator-list(fails)", "enum E { A,\n#pragma in enum\nB };"),
+    ("pragma-with-text-in-parameter-list(fails)", "void f(int a,\n#pragma in params\nint b);"),
+    ("pragma-without-text-in-expression(fails)", "int y = 1 +\n#pragma\n2;"),
 ]
 FILENAMES = ["a.c", "dir/b.h"]
 # the depth-4 alphabet: one program per way of leaving state behind
@@ -174,6 +181,10 @@ LEX_TEXTS = [
     # the same bare directive texts with different file names in force, the
     # same pragma text as in the first entry on another line
     ("bare-line-directives", "a\n#line 7\nb\n# 40\nc T", "bl.c"),
+    # texts abandoned right after a PPPRAGMA token (k pulls up to and
+    # including it), with text, without text, at the very start
+    ("pragma-first-then-more", "#pragma first thing\nint q;", "pf.c"),
+    ("two-pragmas-with-text-in-a-row", "x =\n#pragma one 1\n#pragma two 2\ny", "pp.c"),
     ("bare-line-directive-after-named-marker", '# 3 "nm.h"\nx\n#line 7\ny\n#pragma pack ( 1 )\nz', "nm.c"),
 ]
 
@@ -357,6 +368,13 @@ class GenSpec:
     def fresh(self):
         return self._G() if self.sub else self._G(reduce_parentheses=self.rp)
 
+    def reference_fresh(self):
+        # the re-entrant subclass must print what a plain generator prints
+        if self.sub == "reentrant":
+            from pycparser.c_generator import CGenerator
+            return CGenerator()
+        return self.fresh()
+
     def apply(self, obj, i):
         pristine.touch("CGenerator.visit")
         return O.visit_obs(obj, self.nodes[i]), None
@@ -470,8 +488,8 @@ def _left_behind_work(i):
 
 PREF = ("checks.c12", "parser_spec", ("real",))
 CREF = ("checks.c12", "parser_spec", ("control",))
-GREF = {rp: ("checks.c12", "gen_spec", (rp,)) for rp in (0, 1, "deco", "ownvisit")}
-GVARIANTS = (0, 1, "deco", "ownvisit")
+GVARIANTS = (0, 1, "deco", "ownvisit", "reentrant")
+GREF = {rp: ("checks.c12", "gen_spec", (rp,)) for rp in GVARIANTS}
 FREF = {rp: ("checks.c12", "gen_fresh_spec", (rp,)) for rp in (0, 1)}
 DREF = ("checks.c12", "parser_spec", ("drop",))
 
@@ -496,6 +514,7 @@ def run(tier):
     for ref, n in [(PREF, NP), (CREF, len(parser_ops("control"))),
                    (GREF[0], len(GEN_ASTS)), (GREF[1], len(GEN_ASTS)),
                    (GREF["deco"], len(GEN_ASTS)), (GREF["ownvisit"], len(GEN_ASTS)),
+                   (GREF["reentrant"], len(GEN_ASTS)),
                    (FREF[0], len(FRESH_TEXTS)), (FREF[1], len(FRESH_TEXTS))]:
         base[ref], u = hist.baseline(ref, n)
         unstable += [(ref, i, a, b) for i, a, b in u]
@@ -571,7 +590,7 @@ def run(tier):
     if r["histories"] != expected_histories:
         R.fail("harness:parser-histories-missing", {"part": "parser"}, str(r["histories"]))
     # distinct expected results: every (program, file name) except the empty text
-    if r["expected_distinct"] < NP - 8 or len(r["states"]) < 8 or len(r["outcome_kinds"]) < 2:
+    if r["expected_distinct"] < NP * 3 // 4 or len(r["states"]) < 8 or len(r["outcome_kinds"]) < 2:
         R.fail("harness:parser-part-vacuous", {"part": "parser"},
                f"distinct expected={r['expected_distinct']} states={len(r['states'])}")
     samples += [[pops[i]["what"] + "@" + pops[i]["filename"] for i in h]
@@ -689,7 +708,7 @@ def run(tier):
                      "parser_sequences_with_dropped_asts<=": ddepth,
                      "generator_sequences<=": gdepth, "generator_asts": ng,
                      "generator_fresh_ast_texts": nf,
-                     "generator_variants": ["reduce_parentheses=False", "reduce_parentheses=True", "subclass overriding visit_ID/visit_Constant/visit_BinaryOp", "subclass overriding visit()"]})
+                     "generator_variants": ["reduce_parentheses=False", "reduce_parentheses=True", "subclass overriding visit_ID/visit_Constant/visit_BinaryOp", "subclass overriding visit()", "re-entrant subclass (reference: plain CGenerator)"]})
     R.assumptions += [
         f"histories consist of the listed operations only ({len(PROGRAMS)} programs x {len(FILENAMES)} file names + {len(RARE)} rare-branch programs; {nt} lexer texts; {ng} ASTs)",
         "generator histories contain successful visits only, as the property states",
